@@ -89,7 +89,7 @@ package ch
 //@   modifies all(c.reader)
 //@   invariant len(list) >= 0
 //@ loop 1 (rangeindex)
-//@   invariant true
+//@   invariant -1 <= rangeindex && rangeindex < len(list) - 1
 
 //@ -- the addendum may only be written when the NEGOTIATED revision has it
 //@ contract (c *Client) encodeAddendum() props(C13)
